@@ -18,6 +18,10 @@ CHECKS = {
    text="seeded search over schedules (baton-passing threads, switches at collaborator points and at source-line events inside glom) and re-entrant nestings; every task compared with the same recipe run alone in a cold private instance (outcome incl. full trace text, and the task's own collaborator-event log). A clean batch is evidence, not proof.",
    note="trusts: line-granular (not bytecode-granular) pre-emption; the isolated run of the same code as reference; sys.settrace semantics of CPython 3.12",
    technique="deterministic simulation: seeded baton scheduler over real threads + line-level pre-emption via sys.settrace, isolated-equivalence oracle"),
+ "C07": dict(level="exploration", engine="histsim+schedsim", design="4/C07",
+   text="seeded histories of top-level calls that share spec objects, Vars objects and scope= dicts, some interleaved by the seeded scheduler or nested re-entrantly; every call's result compared with a lexical-frame reference model evaluated for that call alone (tokens derive from the call's own target, so any leak across calls, siblings or enclosing positions is a mismatch); caller scope mapping and spec graph snapshots before/after.",
+   note="trusts: the lexical-frame reference model (glomsim/models/frames.py) as the reading of the statement; where the statement is silent the generator places no readers",
+   technique="deterministic simulation of call histories and schedules, reference-model (lexical frames) oracle + snapshots"),
  "C06": dict(level="exploration", engine="histsim", design="4/C06",
    text="seeded histories (calls, repeats, cache floods with small Path._MAX_CACHE, PATH_STAR toggles, cache drops, registrations, Glommers, aborted calls by collaborator BaseException and by line crashes inside glom, interleaved pairs) in one long-lived private instance; each call compared with a cold instance, plus identity-preserving before/after snapshots of target, spec graph and scope mapping.",
    note="trusts: cold private instance of the same code as reference; snapshot walker (C-level access to containers, __dict__/__slots__ walk of spec objects)",
